@@ -235,6 +235,10 @@ def explore(tier, report):
 
 
 # ------------------------------------------------------------------ E1 round trips
+# right-handed orthogonal triads (z, y, x) with integer components, x = cross(z... ) checked below
+INT_TRIADS = [((1, 1, 0), (-1, 1, 0), (0, 0, 2)), ((1, 2, 2), (2, 1, -2), (-6, 6, -3)), ((0, 3, 4), (0, -4, 3), (25, 0, 0)), ((2, -1, 2), (2, 2, -1), (-3, 6, 6))]
+
+
 def cases(tier, seed):
     out = []
     names = [n for n, _ in data.named_rotations()]
@@ -247,6 +251,12 @@ def cases(tier, seed):
         for pair in ("zy", "zx", "yx"):
             for scale in (1.0, 3.5):
                 out.append({"family": "axes", "rot": n, "pair": pair, "scale": scale})
+    # axes given as integers (differences of pixel coordinates), as int arrays, int32 arrays or nested lists: orthogonal integer
+    # triads that are not axis-aligned
+    for ti in range(len(INT_TRIADS)):
+        for pair in ("zy", "yx", "zx"):
+            for container in ("int64", "int32", "list", "float32", "mixed"):
+                out.append({"family": "int-axes", "triad": ti, "pair": pair, "container": container})
     # anti-parallel rows, exact and perturbed, single and in mixed batches
     for which in ("y", "z", "zy"):
         for eps in (0.0, 1e-16, 1e-9, 5e-7, 2e-6):
@@ -311,6 +321,25 @@ def run_case(case):
         if err > 1e-5:
             viol.append((f"{ID}|from_axes|generic|pair={case['pair']}", f"rotation {case['rot']} from its ({case['pair']}) axes (length {case['scale']}): result is {err:.3g} rad away; axes z={np.round(m.z[0], 3).tolist()} y={np.round(m.y[0], 3).tolist()}"))
         return {"nontrivial": True, "outcome": "axes", "viol": viol}
+    if fam == "int-axes":
+        z, y, x = [np.array(v) for v in INT_TRIADS[case["triad"]]]
+        R = np.stack([z / np.linalg.norm(z), y / np.linalg.norm(y), x / np.linalg.norm(x)], axis=1).astype(np.float64)
+        ax = {"z": z, "y": y, "x": x}
+        cont = case["container"]
+
+        def wrap(v, first):
+            if cont == "list":
+                return [[int(c) for c in v]]
+            if cont == "mixed":
+                return np.asarray(v, dtype=np.float64 if first else np.int64)[None]
+            return np.asarray(v, dtype=cont)[None]
+
+        kw = {k: wrap(ax[k], i == 0) for i, k in enumerate(case["pair"])}
+        m = Molecules.from_axes(np.zeros((1, 3)), **kw)
+        err = _angle(R, m.matrix()[0])
+        if err > 1e-5:
+            viol.append((f"{ID}|from_axes|integer-axes|pair={case['pair']}", f"axes {dict((k, ax[k].tolist()) for k in case['pair'])} given as {cont}: result is {err:.3g} rad from the frame they span; z={np.round(m.z[0], 3).tolist()} y={np.round(m.y[0], 3).tolist()}"))
+        return {"nontrivial": True, "outcome": "int-axes", "viol": viol}
     if fam == "antiparallel":
         which, eps, batch, pair = case["which"], case["eps"], case["batch"], case["pair"]
         # degenerate orientation: y -> -y and/or z -> -z exactly (then x follows from right-handedness)
